@@ -816,9 +816,10 @@ class eval_abs(object):
 
 
             if total_bit in tab_uintsize:
-                return self.eval_expr(ExprCond(mycond,
-                                               ExprInt(tab_uintsize[total_bit](mysrc1)),
-                                               ExprInt(tab_uintsize[total_bit](mysrc2))), eval_cache)
+                # mycond is the condition of an evaluated part: no second evaluation
+                return ExprCond(mycond,
+                                ExprInt(tab_uintsize[total_bit](mysrc1)),
+                                ExprInt(tab_uintsize[total_bit](mysrc2)))
             else:
                 raise 'cannot return non round bytes rez! %X %X'%(total_bit, rez)
 
